@@ -287,7 +287,11 @@ func (db *MemDB) AwaitSyncContribution(ctx context.Context, slot, subcommIdx uin
 	case <-ctx.Done():
 		return nil, ctx.Err()
 	case value := <-response:
-		return value, nil
+		// Clone before returning, the stored value is shared with all other readers.
+		clone := *value
+		clone.AggregationBits = slices.Clone(value.AggregationBits)
+
+		return &clone, nil
 	}
 }
 
